@@ -587,6 +587,12 @@ def correspond(ctx):
     recs = list(uniq.values())
     rng.shuffle(recs)
     callback_cases(ctx, recs[:ctx.scale(60, 300)], 'callback-compiled', False)
+    # (i) round 12: keep_all_tokens=True x %import of rules with anonymous literals (fixed corpus, every engine)
+    try:
+        import shapeimports
+        shapeimports.stream(ctx)
+    except Exception as ex:
+        ctx.violation('harness:keep-all-imports', {'error': repr(ex)[:300]}, False, repr(ex)[:300])
     DEFER.run(ctx, 'c03', 'c03_check')
     # (x) regression F44 (fixed in /repo): CYK's to_cnf lost unit-skip rules depending on the hash seed
     # (UnitSkipRule.__eq__ ignored lhs/rhs); the witness runs in fresh interpreters over hash seeds 0..11
@@ -630,6 +636,9 @@ def cyk_hashseed_bad(grammar, texts, seeds=range(12)):
 
 def replay(ctx, case):
     w = case['witness']
+    if w.get('imports_keep_all'):
+        import shapeimports
+        return shapeimports.bad(w, shapeimports.module_dir()) is not None
     if 'hashseed' in w:
         return cyk_hashseed_bad(w['grammar'], [w['text']]) is not None
     if 'fixed' in w:
